@@ -470,6 +470,18 @@ def c11(tier):
     rel_events(run, groups, "C11")
     run.samples.append({"input": tagged[0], "scales": SCALES})
     run.validate(shard=1500)
+    # ... and through the entry point with a page size of the caller's choosing (the scale's own page, a small one, a large one)
+    ogroups = []
+    for t in (corpus[::5] + tagged[::4]):
+        g = [({"input": t, "entry": "settings", "settings": {"scale": 8.0}}, None)]
+        for j, sc_ in enumerate(r.sample([0.5, 1, 3, 8.0, 10, 20, 37.5], 2)):
+            rows_ = t.split("\n")
+            wn, hn = sc_ * (max(len(x) for x in rows_) + 2), 2 * sc_ * (len(rows_) + 2)
+            w_, h_ = r.choice([(wn, hn), (wn, hn), (16.0, 16.0), (4000.0, 3000.0)])
+            g.append(({"input": t, "entry": "override", "settings": {"scale": sc_}, "w": float(w_), "h": float(h_)}, {"kind": "scale", "of": j + 1}))
+        ogroups.append(g)
+    rel_events(run, ogroups, "C11ov")
+    run.validate(shard=1500)
     # the same buffer rendered at one scale after another (and written in between)
     buffer_part(run, r, 120 if tier == "quick" else 3000, ["scale", "fresh"], "C11H")
     run.assumptions = std_assumptions()
@@ -2071,6 +2083,18 @@ def c16(tier):
         tags = [{"r": 1, "c": 2, "names": [[ord(c) for c in nm2]], "inside": 1},
                 {"r": 3 + mid, "c": 3 + c0, "names": [[ord(c) for c in nm]], "inside": 1}]
         cases.append(("\n".join(rows), "C16tags", "tags", tags))
+    # a quoted string (also of double-width characters) left of the tag, in the tag's own row of a box: the tag is the box's
+    for i in range(max(24, n // 10)):
+        nm = rand_tagname(r)[:3]
+        tagtxt = "{" + nm + "}"
+        q = '"' + "".join(r.choice(gen.WIDE[:10] if i % 2 else "ab cd") for _ in range(r.randint(1, 7))) + '"'
+        qcols = sum(2 if common_wide(c) else 1 for c in q)
+        gap = r.randint(1, 3)
+        inner = " " + q + " " * gap + tagtxt + " " * r.randint(0, 3)
+        icols = 1 + qcols + gap + len(tagtxt) + (len(inner) - len(inner.rstrip(" ")))
+        style = r.choice(["++++-|", "..''-|"])
+        rows = [style[0] + style[4] * icols + style[1], style[5] + inner + style[5], style[5] + " " * icols + style[5], style[2] + style[4] * icols + style[3]]
+        cases.append(("\n".join(rows), "C16tags", "tags", [{"r": 1, "c": 1 + 1 + qcols + gap, "names": [[ord(c) for c in nm]], "inside": 1}]))
     obs = observe.observe([{"input": c[0], "want_style": True} for c in cases], tag="C16A")
     for (t, pred, key, info), o in zip(cases, obs):
         ev = {"props": [pred], "rows": o["rows"], "doc": o["doc"], key: info}
